@@ -355,7 +355,9 @@ structure OutPrims where
 
 /-- `tw.WriteVerbatim(b)` (`render/trimwriter.go`, repair `fixes/verbatim-output-not-trimmed`):
     `tw.trim = false; tw.Write(b); tw.Flush()` — output that is not literal text of the template
-    (the value of an object, the body of a raw block). In terms of the other operations it is
+    (the value of an object, the body of a raw block, what a tag writes: `TagNode.render` hands the tag
+    `verbatimWriter{w}`, here the `cycle` value and the output of an included file). In terms of the
+    other operations it is
     `Write ""` (drops a pending right trim without applying it and flushes the text pending
     before), `Write b` (flag clear, buffer empty: no call, `b` buffered unchanged), `Flush`
     (`b` goes out at once, one call unless `b` is empty, so a later `TrimLeft` finds nothing of it);
